@@ -55,6 +55,20 @@ def search(S):
                     S.check(label + ".log", "principal", {"group": p.tolist()}, bool(np.linalg.norm(w) <= np.pi + 1e-9 and abs(np.linalg.norm(w) - ang) <= 1e-7), ang, float(np.linalg.norm(w)), "rotation part of log is not the smallest-angle rotation vector")
             except Exception as e:
                 S.check(label + ".log", "exception", {"group": p.tolist()}, False, None, "%s: %s" % (type(e).__name__, str(e)[:200]), "log raised")
+    # SE(2) (alone and inside a direct product) for headings up to just under 2 pi in magnitude: exp(log X) = X
+    from cyecca.lie import SE2, R3
+    for k in range(n * 2):
+        th = float(rng.uniform(-2 * np.pi + 0.05, 2 * np.pi - 0.05))
+        if k % 3 == 0:
+            th = float(np.sign(th) * rng.uniform(np.pi + 0.05, 2 * np.pi - 0.05))
+        p = np.concatenate([rng.normal(size=2) * 3, [th]])
+        for nm, g, pp in (("SE2", SE2, p), ("SE2*R3", SE2 * R3, np.concatenate([p, rng.normal(size=3)]))):
+            try:
+                X = g.elem(ca.DM(pp))
+                M = E.D(X.to_Matrix()); M2 = E.D(X.log().exp(g).to_Matrix())
+                S.check(nm + ".log", "exp_log", {"group": pp.tolist()}, bool(np.max(np.abs(M2 - M)) <= 1e-8 * max(1.0, float(np.max(np.abs(M))))), M.tolist(), M2.tolist(), "exp(log X) is not the same group element as X (|theta| < 2 pi)")
+            except Exception as ex:
+                S.check(nm + ".log", "exception", {"group": pp.tolist()}, False, None, "%s: %s" % (type(ex).__name__, str(ex)[:200]), "log raised")
     # representation independence: one rotation, every parameterisation
     for k in range(n * 2):
         ax, ang = L.rand_rot(rng)
